@@ -57,7 +57,7 @@ func verifSplit(content, sep string) []string {
 // reproduces exactly those parts: a feeder goroutine writes one part into a pipe and waits until
 // the reader has drained it (FIONREAD == 0) before it writes the next one.
 func verifSetStdinChunked(content []byte) {
-	if zzverif.Symbolic() || zzverif.Param("STDIN_CHUNKS") != 1 {
+	if zzverif.Symbolic() || zzverif.ParamOr("STDIN_CHUNKS", 0) != 1 {
 		zzverif.SetStdin(content)
 		return
 	}
